@@ -339,17 +339,27 @@ def mon_inbound(tr):
     inbuf = b""
     live = False
     pending = []       # fed while no connection is up: handed to the next one
+    prebytes = b""     # raw bytes fed while no connection is up
+    plans, hs_need = [], 0
     for i, (op, lines) in enumerate(tr):
         f = op.split()
+        if f and f[0] == "dial":
+            plans.append(len(unhex(f[2])) if f[1] == "ok" and len(f) > 2 else ("block" if f[1] == "block" else None))
         if f and f[0] == "brk":
-            pending, inbuf = [], b""
+            pending, inbuf, plans, prebytes = [], b"", [], b""
         if f and f[0] == "feed":
             for a in f[1:]:
                 if a in ("tmo", "err", "eof", "block"):
                     if a in ("err", "eof"):
                         inbuf = b""
                     continue
-                inbuf += unhex(a)
+                data = unhex(a)
+                if not live:
+                    prebytes += data      # framed when the connection that gets them is dialled
+                    continue
+                take = min(hs_need, len(data))
+                hs_need -= take
+                inbuf += data[take:]
                 fr, rest, bad = mq.frames(inbuf)
                 inbuf = b"" if bad else rest
                 for pk in fr:
@@ -363,8 +373,29 @@ def mon_inbound(tr):
             owed, fedq, inbuf, live = None, [], b"", False
         for l in lines:
             p = l.split()
+            if l.startswith("ev dial fail"):
+                while plans and plans[0] == "block":
+                    plans.pop(0)
+                if plans:
+                    plans.pop(0)
             if l.startswith("ev dial ok"):
-                live, fedq, pending = True, pending, []
+                while plans and plans[0] == "block":
+                    plans.pop(0)
+                n = plans.pop(0) if plans else 4
+                hs_need = max(0, 4 - (n if n is not None else 4))
+                take = min(hs_need, len(prebytes))
+                hs_need -= take
+                inbuf, prebytes = prebytes[take:], b""
+                live, fedq, pending = True, [], []
+                fr, rest, bad = mq.frames(inbuf)
+                inbuf = b"" if bad else rest
+                for pk in fr:
+                    try:
+                        d = mq.parse(pk)
+                    except Exception:
+                        continue
+                    if d["name"] == "publish" and "topic" in d and d["qos"] < 3:
+                        fedq.append(d)
             elif l.startswith("ev close "):
                 live, fedq = False, []
             elif l.startswith("rs err ") and not (l.split()[2] == "store" and any(x.startswith("ev savefail 1") for x in lines)):
